@@ -20,7 +20,8 @@ const c02Now = 1900000000 // kitNow under the engine
 const c02SigningTime = 1700000000
 
 // c02Time maps a drawn second to an instant: under the engine the value itself, natively an instant on
-// the same side of the real clock.
+// the same side of the real clock. An expiry equal to the clock has passed (the signature is expired at
+// that instant).
 func c02Time(sec int64) time.Time {
 	if vr.Symbolic() {
 		return time.Unix(sec, 0)
@@ -29,6 +30,15 @@ func c02Time(sec int64) time.Time {
 		return time.Unix(1000000000, 0) // 2001: past
 	}
 	return time.Unix(4000000000, 0) // 2096: future
+}
+
+// c02NotAfter is c02Time for the end of a certificate's validity: a certificate is still valid at the
+// instant NotAfter, so natively the boundary lies on the future side.
+func c02NotAfter(sec int64) time.Time {
+	if vr.Symbolic() || sec != c02Now {
+		return c02Time(sec)
+	}
+	return time.Unix(4000000000, 0)
 }
 
 type c02Level struct {
@@ -158,7 +168,7 @@ func c02Verify(w *c02World, lv c02Level, attrs []signature.Attribute, mgr *kitMa
 	leaf.Subject.Province = []string{"WA"}
 	leaf.Subject.Organization = []string{"a"}
 	leaf.NotBefore = time.Unix(946684800, 0)
-	leaf.NotAfter = c02Time(w.notAfter)
+	leaf.NotAfter = c02NotAfter(w.notAfter)
 	storeKey := "ca:s"
 	sa := signature.SignedAttributes{SigningScheme: signature.SigningSchemeX509, SigningTime: time.Unix(c02SigningTime, 0), ExtendedAttributes: attrs}
 	if w.sa {
